@@ -214,6 +214,8 @@ def run_property(pid, spec, tier, seed, t0):
         "oracle_ok": tot.oracle_ok, "oracle_fail": len(fails), "known_findings_hit": sorted(known_hits),
         "per_kind": per_kind, "broken": broken, "search_mode_cases": searched,
     }
+    if spec.get("exhaustive"):
+        cov["exhaustive"] = True
     C.write_evidence(pid, tier, seed, t0, cov, violations, spec.get("assumptions", []))
     C.log("%s %s: obligations %d/%d, cases %d (compared %d, disagreements %d), oracle ok %d fail %d, %.1fs"
           % (pid, tier, discharged, obligations, tot.evaluations, tot.compared, len(tot.disagreements),
